@@ -249,14 +249,16 @@ def scenarios(tier, seed):
             thorough.append(("pd", {"n": 2, "kind": "diag_fixed", "crit": crit, "miniter": 0, "maxiter": 1, "with_x0": True}))
             thorough.append(("pd", {"n": 2, "kind": "diag_fixed", "crit": crit, "miniter": 0, "maxiter": 2, "with_x0": True, "fork": True}))
         thorough.append(("pd", {"n": 2, "kind": "diag_pd", "crit": crit, "miniter": 0, "maxiter": 3, "with_x0": False}))
-        thorough.append(("pd", {"n": 2, "kind": "diag_pd", "crit": crit, "miniter": 2, "maxiter": 2, "with_x0": False}))
-        thorough.append(("pd", {"n": 2, "kind": "diag_pd", "crit": crit, "miniter": 0, "maxiter": 2, "with_x0": True}))
-        thorough.append(("pd", {"n": 2, "kind": "sym_pd", "crit": crit, "miniter": 0, "maxiter": 2, "with_x0": False}))
+        if crit != "tol":       # the tol / atol criterion in dimension 2 with two iterations does not finish within 40 minutes: not claimed
+            thorough.append(("pd", {"n": 2, "kind": "diag_pd", "crit": crit, "miniter": 2, "maxiter": 2, "with_x0": False}))
+            thorough.append(("pd", {"n": 2, "kind": "diag_pd", "crit": crit, "miniter": 0, "maxiter": 2, "with_x0": True}))
+            # the symmetric (non-diagonal) 2x2 matrix with two iterations does not finish within 40 minutes: one iteration
+            thorough.append(("pd", {"n": 2, "kind": "sym_pd", "crit": crit, "miniter": 0, "maxiter": 1, "with_x0": False}))
     for variant in ("eager", "static"):
         quick.append(("nonpd", {"n": 1, "maxiter": 2, "with_x0": False, "variant": variant}))
-        (quick if variant == "eager" else thorough).append(("nonpd", {"n": 2, "maxiter": 2, "with_x0": False, "variant": variant}))
+        if variant == "eager":    # indefinite matrices in dimension 2: the compiled variant and start vectors do not finish within 40 minutes
+            quick.append(("nonpd", {"n": 2, "maxiter": 2, "with_x0": False, "variant": variant}))
         quick.append(("nonpd", {"n": 1, "maxiter": 2, "with_x0": True, "variant": variant}))
-        thorough.append(("nonpd", {"n": 2, "maxiter": 2, "with_x0": True, "variant": variant}))
     quick.append(("raise", {"n": 1}))
     quick.append(("raise", {"n": 2}))
     return quick if tier == "quick" else quick + thorough
@@ -271,14 +273,14 @@ META = {
     "explanation": "Compiled _static_cg: jaxpr IR with the while loop unrolled to maxiter (unwinding obligation), interpreted over symbolic "
                    "reals.  Eager _cg: the real Python loop on object arrays (module names vdot, jft_norm, zeros_like, size, result_type, "
                    "jnp.{real,maximum,abs,finfo} and float() replaced by object-array versions), all feasible paths explored.  "
-                   "Positive definite systems (positive diagonal n<=2, symmetric 2x2 with a>0, ad-b^2>0 in thorough): on every eager "
+                   "Positive definite systems (positive diagonal n<=2, symmetric 2x2 with a>0, ad-b^2>0 and one iteration in thorough): on every eager "
                    "path the compiled variant returns the same x, info and nit; info == 0 implies the requested residual criterion for "
                    "the recomputed residual (or gamma <= tiny); info != 0 only at the iteration limit; the quadratic energy does not "
                    "increase.  Indefinite matrices with _raise_nonposdef=False and negative curvature along the first direction: "
                    "E(x_returned) < E(x_start) with a step along steepest descent, for both variants; with _raise_nonposdef=True the "
                    "eager solver raises and the compiled one reports -1.",
     "functions_encoded": ["nifty.re.conjugate_gradient.{_cg,_static_cg}"],
-    "bounds": {"dimension": "1-2", "maxiter": "1-2 (3 thorough); one thorough scenario interprets the compiled solver in fork mode (n = 2, fixed diagonal, start vector, maxiter 2)", "miniter": "0-2", "criteria": "resnorm, absdelta, tol/atol"},
+    "bounds": {"dimension": "1-2 (indefinite matrices: dimension 2 only for the eager solver without start vector; tol / atol criterion: dimension 2 with one iteration)", "maxiter": "1-2 (3 thorough); one thorough scenario interprets the compiled solver in fork mode (n = 2, fixed diagonal, start vector, maxiter 2)", "miniter": "0-2", "criteria": "resnorm, absdelta, tol/atol"},
     "stubs": ["eager: nifty.re.conjugate_gradient.{vdot,jft_norm,zeros_like,size,result_type,jnp,float} replaced in the module namespace by "
               "object-array versions with the obvious contracts (their real implementations are the subject of C33)", "jaxpr interpreter"],
     "outside": ["N_RESET residual recomputation (every 20 iterations)", "time_threshold", "pretty printing", "dimension > 2"],
